@@ -12,4 +12,12 @@ def lits (fn : String) : List String := ((Generated.literals.find? (fun e => e.1
 theorem DialogBasedBackend_AddBackend_shape : lits "DialogBasedBackend.AddBackend" =
   ["op>", "op*"] := by decide +kernel
 
+/-- the default: DEFAULT_DIALOG_TIMEOUT, 1200 when it is not set, 1200 when it is not a number (Side.Config.defaultDialogTimeout) -/
+theorem getDefaultDialogTimeout_shape : lits "getDefaultDialogTimeout" =
+  ["\"DEFAULT_DIALOG_TIMEOUT\"", "op!", "1200", "op==", "1200"] := by decide +kernel
+
+/-- startProxy applies the default only to a service without a positive dialogTimeout of its own (`<= 0` comes first) -/
+theorem startProxy_shape : lits "startProxy" =
+  ["op<=", "0", "0", "op!", "op!", "op!=", "0", "op==", "1", "op>", "0", "\"failed to start %d proxies\""] := by decide +kernel
+
 end Expected.K15
